@@ -84,8 +84,9 @@ def run(ctx):
     if len(recs) != len(cases):
         raise vf.ToolError("harness wrote %d records for %d cases" % (len(recs), len(cases)))
     # 3. anti-vacuity of the judge
-    self_test(ctx, recs)
-    small = cc.write_ndjson(ctx.path("small.ndjson"), [x for x in recs if x["op"] == "view"][:1500])
+    if not ctx.violations:      # anti-vacuity of the judge; pointless (and short of clean records) once the run has failed
+        self_test(ctx, recs)
+    small = cc.write_ndjson(ctx.path("small.ndjson"), [dict(x, dup_of=0) for x in recs if x["op"] == "view" and x["dup_of"] == 0][:1500])
     cc.expect_bad("Trace_Encoding", small, "family:ModelHashInjective", cfg="Trace_Encoding_neg_hash")
     ctx.cov["tlc_runs"].append({"run": "negative:hash_no_length (model ContentHash without length prefixes)",
                                 "outcome": "collision found as required (family:ModelHashInjective)"})
